@@ -246,6 +246,9 @@ def gen_param_op(rng, b, w, ctx):
     if kind == "danger":
         return {"op": "danger_pair"}
     if kind == "gstep":
+        if rng.random() < 0.3:
+            # the same parameter through basicConfig (0 excluded: there it means "not given" and loads the config file)
+            return {"op": "basic_config", "step": maybe(rng, b, "distance", gen.pick(rng, [1.0, 2.0, 4.0, 0.5]), [1.0, "Foot"], p=0.8, neg_ok=True, state=st)}
         return {"op": "gstep", "value": maybe(rng, b, "distance", gen.pick(rng, [1.0, 2.0, 4.0, 0.5]), [1.0, "Foot"], p=0.8, zero_p=Z / 2, neg_ok=True, state=st)}
     raise ValueError(kind)
 
@@ -303,7 +306,7 @@ def gen_history(seed, tier):
             prog.append({"op": "at_dist", "fire": len(prog) - 2,
                          "d": [round(rng.randint(1, 9) * rft / 10 + gen.pick(rng, [0.0, -0.5, 0.5, 1.5, 3.0, 4.5]), 4), "Foot"]})
             continue
-        if op["op"] == "gstep":
+        if op["op"] in ("gstep", "basic_config"):
             prog.append(op)
             # a calculator created now takes the new global step; keep it usable (>= 0.5 ft in every unit: the bare
             # number was chosen for the believed unit)
